@@ -1,3 +1,60 @@
 import Cherab.Props.C17
 open Cherab.Props.C17
-#print axioms total_volume_nil
+-- independence of start vertex / orientation
+#print axioms shoelace_rotate
+#print axioms shoelace_reverse
+#print axioms area_rotate
+#print axioms area_reverse
+#print axioms centroid_rotate
+#print axioms centroid_reverse
+#print axioms volume_rotate
+#print axioms volume_reverse
+#print axioms winding_eq_neg_shoelace
+#print axioms normalise_invariant
+#print axioms normalise_clockwise
+#print axioms normalise_reverse
+-- any radius and height
+#print axioms shoelace_translate
+#print axioms area_translate
+#print axioms centroid_translate
+-- true area / centroid
+#print axioms shoelace_fan
+#print axioms centroid_fan
+#print axioms centroid_is_weighted_mean
+#print axioms shoelace_split
+#print axioms moments_split
+#print axioms triangulation_area
+#print axioms triangulation_moments
+#print axioms triangulation_unsigned
+#print axioms triArea_eq
+#print axioms triangle_exact
+#print axioms rect_exact
+-- volume
+#print axioms volume_pappus
+#print axioms volume_frustum
+#print axioms total_volume_sum
+#print axioms total_volume_append
+#print axioms total_volume_perm
+#print axioms total_volume_grid
+-- sampling
+#print axioms cumulativeAreas_getD
+#print axioms cumulativeAreas_sorted
+#print axioms bisect_spec
+#print axioms findIndex_spec
+#print axioms findIndex_ge
+#print axioms lookup_eq_iff
+#print axioms pick_triangle_measure
+#print axioms pick_probability
+#print axioms pick_in_range
+#print axioms lookup_leaves_table
+#print axioms lookup_out_of_range_witness
+#print axioms lookup_clamped_in_range
+#print axioms pickTriangle_in_range
+#print axioms pickTriangle_in_range_if_clamped
+#print axioms table_ends_at_total
+#print axioms emissivity_index_in_range
+#print axioms sample_point_convex
+#print axioms estimate_const
+#print axioms estimate_linear
+#print axioms emissivity_is_sample_mean
+#print axioms unbiased_partial
